@@ -1231,6 +1231,11 @@ pub fn scenarios(prop: &str, tier: &str) -> Vec<Scenario> {
                         s.readers = vec![rd(follow, false, None, Some(n), None)];
                         s.max_ticks = if follow == "hb" { 1 } else { 0 };
                         s.probe = true;
+                        // quick: the heartbeat scenarios (two scheduling points per pulse) keep the
+                        // full bound where history < limit and history == limit
+                        if !thorough && follow == "hb" && h > n {
+                            s.bound = Some(1);
+                        }
                         v.push(s);
                     }
                 }
